@@ -20,7 +20,7 @@
    from `poll_ready` (at its limit, sink not ready) without polling the inner channel: finding K2.
    The full-strength monitors demand that a blocked poll, too, processes expiry and server-side
    cancels (they reject K2 traces); the `_rel` variants exempt exactly the obligations that arise
-   from blocked polls (C06, C11) and from capacity freed inside the same inner poll (C12, K1). *)
+   from blocked polls (C06, C11) and from capacity freed earlier in the same Requests poll (C12, K1). *)
 From Coq Require Import List Bool Arith NArith.
 Import ListNotations.
 From TarpcV Require Import Base Transport TimerWheel Server.
@@ -49,7 +49,7 @@ Record verdicts := mkv {
   v12a : bool;       (* C12: never more than L in flight after a yield *)
   v12b : bool;       (* C12: a throttle reply answers the request just read, which is not yielded *)
   v12c : bool;       (* C12: refused only with L in flight when read (full) *)
-  v12c_rel : bool;   (*      the same, capacity freed inside the same inner poll exempt *)
+  v12c_rel : bool;   (*      the same, capacity freed earlier in the same Requests poll exempt *)
   v09 : bool;        (* C09 server: faults are reported with their activity; no panic; drop aborts *)
   v10 : bool;        (* C10 server: end of stream only after eof, nothing in flight, flushed *)
   h_b1 : bool;       (* hypothesis reuse_only_after_completion held so far *)
@@ -471,8 +471,10 @@ Section Monitors.
     negb (v_bad v) && (negb (h_stop v) || v06e v) && (negb hyp || v06l v).
   Definition c06_rel_ok : bool :=
     negb (v_bad v) && (negb (h_stop v) || v06e v) && (negb hyp || v06l_rel v).
-  Definition c12_ok : bool := negb (v_bad v) && v12a v && v12b v && v12c v.
-  Definition c12_rel_ok : bool := negb (v_bad v) && v12a v && v12b v && v12c_rel v.
+  (* clause (c) counts the requests that may be in flight through the incarnation table, which is
+     only meaningful while ids are reused as the hypothesis B1 allows *)
+  Definition c12_ok : bool := negb (v_bad v) && v12a v && v12b v && (negb (h_b1 v) || v12c v).
+  Definition c12_rel_ok : bool := negb (v_bad v) && v12a v && v12b v && (negb (h_b1 v) || v12c_rel v).
   Definition c11s_ok : bool := negb (v_bad v) && (negb hyp || v11 v).
   Definition c11s_rel_ok : bool := negb (v_bad v) && (negb hyp || v11_rel v).
   Definition c09s_ok : bool := negb (v_bad v) && (negb hyp || v09 v).
